@@ -388,6 +388,12 @@ func init() {
 		}()
 		return res
 	})
+	reg("FreezeAll", func(e *Engine, fn *ssa.Function, a []Value) Value {
+		e.epoch++
+		e.freezeEpoch = e.epoch
+		e.freezeLabel = concStr(e, a[0])
+		return nil
+	})
 	reg("NewEpoch", func(e *Engine, fn *ssa.Function, a []Value) Value {
 		e.epoch++
 		return nil
